@@ -119,6 +119,8 @@ def rand_psd(rs, d, rank):
 def rand_object(kind, c, m, seed):
     """a physical object, generic (complex, asymmetric); returned as the FULL real parameter list:
        state: vec (d^2); povm: list of m vecs; gate: HS matrix (d^2 x d^2)"""
+    if seed < 0:
+        return extreme_object(kind, c, m, -seed)
     rs = np.random.RandomState(seed)
     d = c.dim
     rank = [1, d, max(1, d - 1)][seed % 3]
@@ -142,6 +144,47 @@ def rand_object(kind, c, m, seed):
         B = basis_of(c)
         hs = np.array([[sum(np.trace(Ba.conj().T @ K @ Bb @ K.conj().T) for K in Ks).real for Bb in B] for Ba in B])
         return hs
+    raise ValueError(kind)
+
+
+def extreme_object(kind, c, m, seed):
+    """physical objects at the rim of the physical set / with extreme variable coordinates (selected by a NEGATIVE truth seed):
+       state: eigenstate of a Pauli-like axis measurement (exact zero probabilities, also in the FIRST position) or a random pure state;
+       povm : UNBALANCED - the first element has all eigenvalues in [0.75, 0.95] (identity coefficient ~0.85 sqrt(d) > 1), the rest of
+              the identity is split among the other elements;
+       gate : a random unitary channel (rank-one Choi matrix)"""
+    rs = np.random.RandomState(seed)
+    d = c.dim
+    if kind == "state":
+        if seed % 2 == 1:
+            H = rs.randn(d, d) + 1j * rs.randn(d, d)
+            H = [np.diag(np.arange(d, dtype=float)), H + H.conj().T][seed % 4 // 2]     # computational-basis vector or generic
+            w, U = np.linalg.eigh(H)
+            v = U[:, seed % d]
+        else:
+            v = rs.randn(d) + 1j * rs.randn(d)
+        v = v / np.linalg.norm(v)
+        return coeffs(c, np.outer(v, v.conj()))
+    if kind == "povm":
+        G = rs.randn(d, d) + 1j * rs.randn(d, d)
+        Q, _ = np.linalg.qr(G)
+        E0 = Q @ np.diag(rs.uniform(0.75, 0.95, size=d)) @ Q.conj().T
+        R = np.eye(d) - E0
+        w, U = np.linalg.eigh(R)
+        Rh = U @ np.diag(np.sqrt(np.clip(w, 0, None))) @ U.conj().T
+        if m == 2:
+            Es = [E0, R]
+        else:
+            Ws = [rand_psd(rs, d, d) for _ in range(m - 1)]
+            S = sum(Ws); w2, U2 = np.linalg.eigh(S); Sih = U2 @ np.diag(w2 ** -0.5) @ U2.conj().T
+            Es = [E0] + [Rh @ Sih @ W @ Sih @ Rh for W in Ws]
+            Es[-1] = np.eye(d) - sum(Es[:-1])
+        return [coeffs(c, E) for E in Es]
+    if kind == "gate":
+        G = rs.randn(d, d) + 1j * rs.randn(d, d)
+        K, _ = np.linalg.qr(G)
+        B = basis_of(c)
+        return np.array([[np.trace(Ba.conj().T @ K @ Bb @ K.conj().T).real for Bb in B] for Ba in B])
     raise ValueError(kind)
 
 
@@ -460,7 +503,7 @@ def chk_pgdb(ctx, case):
     mrows = A.shape[0]
     sqdata = rflat(A) + rflat(b) + rflat(q)
     nontrivial_steps = 0
-    steps = pick_steps(k, 10 ** 9 if case.get("all_steps") else ctx.n(9, 30), rs)
+    steps = pick_steps(k, 10 ** 9 if (case.get("all_steps") or getattr(ctx, "c11_tie_broken", False)) else ctx.n(9, 30), rs)
     for i in steps:
         x, y, a_impl = xs[i], ys[i], alphas[i]
         with quiet():
@@ -625,7 +668,7 @@ def pgdb_cases(ctx):
                 for li, lname in enumerate(losses):
                     for mode in range(4):
                         idx += 1
-                        if ctx.quick and (idx + si + li) % 2 == 1:
+                        if ctx.quick and (idx + si + li) % 2 == 1 and not getattr(ctx, "c11_tie_broken", False):
                             continue                                   # quick: half of the grid, every pair of factors still occurs
                         shots = shots_list[(idx + rep * 2 + mode) % len(shots_list)]
                         h = 1 + (idx + rep) % 3
@@ -639,6 +682,11 @@ def pgdb_cases(ctx):
                                 "truth_seed": ctx.rng.randrange(10 ** 6), "gamma": [0.3, 0.3, 0.1][(idx + rep) % 3],
                                 "mu": [None, None, None, 1.0][(idx + rep) % 4]}
                         cases.append(case)
+    # truths at the rim of the physical set (see extreme_object)
+    for j, (setup, lname, mode, shots) in enumerate([("povmt1", "fse", 0, 0), ("povmt1", "fre", 1, 1000), ("qst1", "fre", 3, 0), ("qpt1", "fse", 2, 0)] * ctx.n(1, 4)):
+        cases.append({"setup": setup, "para": j % 2 == 0, "loss": lname, "mode": mode, "h": 1 + j % 2, "eps": None if mode in (0, 1) else (1e-9 if mode == 2 else 1e-7),
+                      "max_iter": 150 if ctx.quick else 400, "shots": shots, "seed": ctx.rng.randrange(10 ** 6),
+                      "truth_seed": -(1 + ctx.rng.randrange(10 ** 6)), "gamma": 0.3, "mu": None})
     if ctx.quick:
         for para in (True, False):
             for lname, mode in (("fse", 0), ("fre", 2)):
@@ -758,6 +806,14 @@ def sub_cvx_est(ctx):
                     i += 1
                     cases.append({"setup": setup, "loss": fam, "shots": shots, "seed": ctx.rng.randrange(10 ** 6),
                                   "truth_seed": ctx.rng.randrange(10 ** 6)})
+    # truths at the rim of the physical set (negative truth seed -> extreme_object): unbalanced POVMs (identity coefficient > 1),
+    # pure states with exact zero probabilities, unitary gates; exact data and finite shots
+    ext = [("povmt1", "se", 1000), ("povmt1", "re", 0), ("povmt1m3", "re", 1000), ("qst1", "re", 0)]
+    if not ctx.quick:
+        ext += [("povmt1", "se", 0), ("povmt1", "re", 100), ("povmt1m3", "se", 0), ("qst1", "se", 0), ("qst1", "re", 100), ("qst3", "re", 0),
+                ("qst3", "se", 1000), ("qpt1", "se", 0), ("qpt1", "re", 0), ("qpt1", "re", 1000)] * 2
+    for setup, fam, shots in ext:
+        cases.append({"setup": setup, "loss": fam, "shots": shots, "seed": ctx.rng.randrange(10 ** 6), "truth_seed": -(1 + ctx.rng.randrange(10 ** 6))})
     ctx.sample("cvx_est", cases[0])
     ctx.run_cases("cvx_est", chk_cvx_est, cases)
     st = ctx.__dict__.get("c11_stats_cvx", {})
@@ -936,6 +992,14 @@ def chk_cvx_maps(ctx, case):
     val = cvx_point(nvar, case["point"])
     var = cp.Variable(nvar)
     var.value = val
+    if case["point"] == "zero":
+        # the optimisation variable quara hands to the solver ranges over ALL of R^nvar: the feasible set of the problem is then
+        # exactly the set cut out by the `>> 0` constraints checked below (no box bounds / sign / integrality attributes)
+        gv = cv.generate_cvxpy_variable(t, d, m)
+        restr = {k_: v_ for k_, v_ in gv.attributes.items() if not (v_ is None or v_ is False)}
+        if gv.shape != (nvar,) or restr:
+            ctx.violation(sub, "conversion.generate_cvxpy_variable", "variable-domain-restricted",
+                          "generate_cvxpy_variable(%r, %d, %r): shape %s (expected (%d,)), domain-restricting attributes %s" % (t, d, m, gv.shape, nvar, sorted(restr)), case)
     key = (t, dim, m, case["point"])
     sd = float(np.sqrt(d)); isd = float(1 / np.sqrt(d)); dd = float(d)
     tol = 1e-12
@@ -1127,6 +1191,53 @@ def sub_corpus(ctx):
 SUBS = [("corpus", sub_corpus)] + SUBS
 
 
+# ====================================================================================== translator tie
+def regen_tie(ctx):
+    """regenerate (gen/c11_py2coq.py) the Gallina text of ProjectedGradientDescentBacktracking._is_doing_for_alpha / .optimize and of
+    conversion.num_cvxpy_variable from the CURRENT source, compile it and re-check coq/gen/C11_Equiv.v (regenerated = hand-written model
+    for ALL inputs).  returns (ok, info)"""
+    import re, shutil, subprocess, sys
+    import runner
+    V = runner.V
+    scratch = os.path.join(ctx.scratch, "gen")
+    os.makedirs(scratch, exist_ok=True)
+    gen_v = os.path.join(scratch, "Gen_c11.v")
+    equiv = os.path.join(V, "coq", "gen", "C11_Equiv.v")
+    src = open(equiv).read()
+    src_nc = re.sub(r"\(\*.*?\*\)", " ", src, flags=re.S)
+    thms = re.findall(r"^\s*Theorem\s+([\w']+)", src_nc, flags=re.M)
+    ctx.theorems = list(ctx.theorems) + [t for t in thms if t not in ctx.theorems]
+    ctx.obligations += len(thms)
+    r = subprocess.run([sys.executable, os.path.join(V, "gen", "c11_py2coq.py"), os.environ.get("VERIF_REPO", "/repo"), gen_v],
+                       capture_output=True, text=True, timeout=120)
+    if r.returncode != 0:
+        return False, {"theorem": thms[0], "error": "translator rejected the source (outside its subset): " + (r.stdout + r.stderr)[-600:]}
+    q = ["-Q", os.path.join(V, "coq", "theories"), "QV", "-Q", scratch, "QVGen"]
+    r = subprocess.run(["timeout", "300", "coqc"] + q + [gen_v], capture_output=True, text=True)
+    if r.returncode != 0:
+        return False, {"theorem": thms[0], "error": "regenerated model does not compile: " + (r.stdout + r.stderr)[-600:]}
+    dst = os.path.join(scratch, "C11_Equiv.v")
+    shutil.copy(equiv, dst)
+    r = subprocess.run(["timeout", "600", "coqc"] + q + [dst], capture_output=True, text=True)
+    out = r.stdout + r.stderr
+    if r.returncode != 0:
+        mm = re.search(r"line (\d+), characters", out)
+        thm = None
+        if mm:
+            upto = "\n".join(src.splitlines()[:int(mm.group(1))])
+            names = re.findall(r"^\s*(?:Theorem|Lemma)\s+([\w']+)", upto, flags=re.M)
+            thm = names[-1] if names else None
+        return False, {"theorem": thm, "error": out[-800:]}
+    blocks = runner.parse_assumptions(out)
+    bad = [a for closed, axs in blocks for a in axs if a not in runner.ALLOWED_AXIOMS and a.split(".")[-1] not in runner.ALLOWED_AXIOMS]
+    if len(blocks) != len(thms) or bad:
+        return False, {"theorem": thms[0], "error": "assumption gate on regenerated proofs: %d blocks / %d theorems, disallowed %s" % (len(blocks), len(thms), bad)}
+    for t, (closed, axs) in zip(thms, blocks):
+        ctx.axioms[t] = "closed" if closed else sorted(set(axs))
+    ctx.discharged += len(thms)
+    return True, {}
+
+
 def run(ctx):
     ctx.rule = ("pgdb: one case = one backtracking run (setup x parametrisation x loss x stopping mode x window x shots, seeded truth and data); "
                 "per run up to 9/30 iterations are replayed through the exact model; a step is non-trivial when every Armijo margin and the stopping "
@@ -1137,7 +1248,27 @@ def run(ctx):
     ctx.assumptions = ["SCS (and CVXPY's canonicalisation) is an oracle: its output is checked (feasibility, loss, competitors), not proved",
                        "relative entropy: ln is not modelled; the Armijo/stopping logic is replayed exactly on the implementation's loss values, convexity is a hypothesis of T4/T5 for this loss",
                        "the physical projection P (Dykstra + eigh) is an oracle constrained per step by the descent certificate <g,y> + mu|y|^2 <= 0 and by feasibility of the iterates"]
-    flow.standard_run(ctx, SUBS)
+    # flow.standard_run with this property's own translator tie (flow.regen_check is bound to gen/py2coq.py)
+    import runner
+    ok, info = runner.check_props(ctx)
+    ok2, info2 = regen_tie(ctx)
+    if not ok2:
+        ok, info = False, info2
+        ctx.note("regenerated model of optimize / _is_doing_for_alpha / num_cvxpy_variable (coq/gen/C11_Equiv.v) not discharged: %s" % str(info2)[:500])
+        # the tie is broken: widen the differential sweep to find a concrete failing input (every step of every run is replayed,
+        # the whole quick grid instead of half of it)
+        ctx.c11_tie_broken = True
+    if not ok:
+        ctx.discharged = min(ctx.discharged, ctx.obligations - 1)
+    for name, fn in SUBS:
+        if ctx.only is None or name in ctx.only:
+            fn(ctx)
+    if not ok and not ctx.violations:
+        ctx.violation("theorems", "Props/%s.v" % ctx.prop_id, "theorem-broken:%s" % info.get("theorem"),
+                      "theorem %s no longer checks: %s" % (info.get("theorem"), info.get("error", "")[-400:]),
+                      {"theorem": info.get("theorem"), "error": info.get("error")}, no_input=True)
+    elif not ok:
+        ctx.note("theorem obligations not discharged: %s" % info)
 
 
 def replay(ctx, doc):
